@@ -1,87 +1,235 @@
-    // ---- bit-level view of byte strings (FIPS 204 BytesToBits is little-endian within each byte)
-    pub open spec fn bit(v: Seq<u8>, i: int) -> int {
-        (v[i / 8] as int / pow2((i % 8) as nat) as int) % 2
-    }
-    pub open spec fn bits_val(v: Seq<u8>, s: int, l: int) -> int
+    // ---- bit-level view of byte strings and of the ideal bit stream (FIPS 204 BytesToBits / IntegerToBits are little-endian)
+    pub open spec fn p2(k: int) -> int { pow2(k as nat) as int }
+    // value of the l bits f(s), f(s+1), ... (little endian)
+    pub open spec fn bv(f: spec_fn(int) -> int, s: int, l: int) -> int
         decreases l
     {
-        if l <= 0 { 0 } else { bit(v, s) + 2 * bits_val(v, s + 1, l - 1) }
+        if l <= 0 { 0 } else { f(s) + 2 * bv(f, s + 1, l - 1) }
     }
-    pub open spec fn field(v: Seq<u8>, c: int, j: int) -> int { bits_val(v, c * j, c) }
+    pub open spec fn is_bits(f: spec_fn(int) -> int) -> bool { forall|i: int| 0 <= #[trigger] f(i) <= 1 }
 
-    pub proof fn lemma_bits_range(v: Seq<u8>, s: int, l: int)
-        requires l >= 0,
-        ensures 0 <= bits_val(v, s, l) < pow2(l as nat),
+    pub proof fn lemma_bv_range(f: spec_fn(int) -> int, s: int, l: int)
+        requires l >= 0, is_bits(f),
+        ensures 0 <= bv(f, s, l) < p2(l),
         decreases l
     {
         if l == 0 { lemma2_to64(); } else {
-            lemma_bits_range(v, s + 1, l - 1);
+            lemma_bv_range(f, s + 1, l - 1);
             lemma_pow2_unfold(l as nat);
+            assert(0 <= f(s) <= 1);
         }
     }
-    pub proof fn lemma_bits_split(v: Seq<u8>, s: int, l1: int, l2: int)
+    pub proof fn lemma_bv_split(f: spec_fn(int) -> int, s: int, l1: int, l2: int)
         requires l1 >= 0, l2 >= 0,
-        ensures bits_val(v, s, l1 + l2) == bits_val(v, s, l1) + pow2(l1 as nat) * bits_val(v, s + l1, l2),
+        ensures bv(f, s, l1 + l2) == bv(f, s, l1) + p2(l1) * bv(f, s + l1, l2),
         decreases l1
     {
-        let x = bits_val(v, s + l1, l2);
-        let pw = pow2(l1 as nat) as int;
+        let x = bv(f, s + l1, l2);
+        let pw = p2(l1);
         if l1 == 0 {
             lemma2_to64();
             assert(pw == 1);
-            assert(bits_val(v, s, 0) == 0);
+            assert(bv(f, s, 0) == 0);
             assert(s + l1 == s);
             assert(l1 + l2 == l2);
             assert(pw * x == x) by (nonlinear_arith) requires pw == 1;
         } else {
-            lemma_bits_split(v, s + 1, l1 - 1, l2);
+            lemma_bv_split(f, s + 1, l1 - 1, l2);
             lemma_pow2_unfold(l1 as nat);
-            let a = bits_val(v, s + 1, l1 - 1);
-            let p = pow2((l1 - 1) as nat) as int;
+            let a = bv(f, s + 1, l1 - 1);
+            let p = p2(l1 - 1);
             assert(l1 - 1 + l2 == l1 + l2 - 1);
             assert(s + 1 + (l1 - 1) == s + l1);
-            assert(bits_val(v, s + 1, l1 + l2 - 1) == a + p * x);
-            assert(bits_val(v, s, l1 + l2) == bit(v, s) + 2 * bits_val(v, s + 1, l1 + l2 - 1));
-            assert(bits_val(v, s, l1) == bit(v, s) + 2 * a);
+            assert(bv(f, s + 1, l1 + l2 - 1) == a + p * x);
+            assert(bv(f, s, l1 + l2) == f(s) + 2 * bv(f, s + 1, l1 + l2 - 1));
+            assert(bv(f, s, l1) == f(s) + 2 * a);
             assert(pw == 2 * p);
             assert(2 * (a + p * x) == 2 * a + pw * x) by (nonlinear_arith) requires pw == 2 * p;
         }
     }
-    pub proof fn lemma_byte_bits(x: int)
-        requires 0 <= x < 256,
-        ensures x == (x % 2) + 2 * ((x / 2) % 2) + 4 * ((x / 4) % 2) + 8 * ((x / 8) % 2) + 16 * ((x / 16) % 2) + 32 * ((x / 32) % 2) + 64 * ((x / 64) % 2) + 128 * ((x / 128) % 2),
+    pub proof fn lemma_bv_ext(f: spec_fn(int) -> int, g: spec_fn(int) -> int, s: int, l: int)
+        requires forall|i: int| s <= i < s + l ==> #[trigger] f(i) == g(i),
+        ensures bv(f, s, l) == bv(g, s, l),
+        decreases l
     {
-        let y = x as u32;
-        assert(y == (y % 2) + 2 * ((y / 2) % 2) + 4 * ((y / 4) % 2) + 8 * ((y / 8) % 2) + 16 * ((y / 16) % 2) + 32 * ((y / 32) % 2) + 64 * ((y / 64) % 2) + 128 * ((y / 128) % 2)) by (bit_vector)
-            requires y < 256;
+        if l > 0 { lemma_bv_ext(f, g, s + 1, l - 1); }
     }
-    pub proof fn lemma_bit_at(v: Seq<u8>, s: int, t: int, p: int)
-        requires s % 8 == 0, 0 <= s, 0 <= t < 8, p == pow2(t as nat),
-        ensures bit(v, s + t) == (v[s / 8] as int / p) % 2,
+    // bit t of integer x
+    pub open spec fn ibit(x: int, t: int) -> int { (x / p2(t)) % 2 }
+    pub open spec fn ibitf(x: int) -> spec_fn(int) -> int { |t: int| ibit(x, t) }
+    // the n low bits of x, taken from position `from`, reassemble (x / 2^from) mod 2^n
+    pub proof fn lemma_int_bits(x: int, from: int, n: int)
+        requires x >= 0, from >= 0, n >= 0,
+        ensures bv(ibitf(x), from, n) == (x / p2(from)) % p2(n),
+        decreases n
     {
-        assert((s + t) / 8 == s / 8);
-        assert((s + t) % 8 == t);
+        let f = ibitf(x);
+        lemma2_to64();
+        if n == 0 {
+            assert(p2(0) == 1);
+        } else {
+            lemma_int_bits(x, from + 1, n - 1);
+            lemma_pow2_unfold(n as nat);
+            lemma_pow2_unfold((from + 1) as nat);
+            lemma_pow2_pos(from as nat);
+            lemma_pow2_pos((n - 1) as nat);
+            let y = x / p2(from);
+            let pn = p2(n - 1);
+            // (x / 2^(from+1)) == y / 2
+            assert(x / p2(from + 1) == y / 2) by {
+                lemma_div_denominator(x, p2(from), 2);
+                assert(p2(from + 1) == p2(from) * 2);
+            }
+            assert(f(from) == y % 2);
+            assert(bv(f, from, n) == y % 2 + 2 * ((y / 2) % pn));
+            // y % (2*pn) == y % 2 + 2 * ((y/2) % pn)
+            assert(y % (2 * pn) == y % 2 + 2 * ((y / 2) % pn)) by {
+                lemma_mod_breakdown(y, 2, pn);
+            }
+            assert(p2(n) == 2 * pn);
+        }
+    }
+
+    pub proof fn lemma_int_bits_small(x: int, n: int)
+        requires n >= 0, 0 <= x < p2(n),
+        ensures bv(ibitf(x), 0, n) == x,
+    {
+        lemma_int_bits(x, 0, n);
+        lemma2_to64();
+        let d = p2(0);
+        assert(d == 1);
+        assert(x / d == x) by (nonlinear_arith) requires d == 1;
+        lemma_small_mod(x as nat, p2(n) as nat);
+    }
+    pub proof fn lemma_bv_shift(f: spec_fn(int) -> int, s: int, g: spec_fn(int) -> int, s2: int, l: int)
+        requires forall|i: int| 0 <= i < l ==> #[trigger] f(s + i) == g(s2 + i),
+        ensures bv(f, s, l) == bv(g, s2, l),
+        decreases l
+    {
+        if l > 0 {
+            assert(f(s + 0) == g(s2 + 0));
+            assert forall|i: int| 0 <= i < l - 1 implies #[trigger] f(s + 1 + i) == g(s2 + 1 + i) by {
+                assert(f(s + (i + 1)) == g(s2 + (i + 1)));
+                assert(s + (i + 1) == s + 1 + i);
+                assert(s2 + (i + 1) == s2 + 1 + i);
+            }
+            lemma_bv_shift(f, s + 1, g, s2 + 1, l - 1);
+        }
+    }
+    pub proof fn lemma_bv_unique(f: spec_fn(int) -> int, s: int, g: spec_fn(int) -> int, s2: int, l: int)
+        requires is_bits(f), is_bits(g), l >= 0, bv(f, s, l) == bv(g, s2, l),
+        ensures forall|i: int| 0 <= i < l ==> #[trigger] f(s + i) == g(s2 + i),
+        decreases l
+    {
+        if l > 0 {
+            assert(0 <= f(s) <= 1 && 0 <= g(s2) <= 1);
+            let a = bv(f, s + 1, l - 1);
+            let b = bv(g, s2 + 1, l - 1);
+            assert(f(s) + 2 * a == g(s2) + 2 * b);
+            assert(f(s) == g(s2));
+            assert(a == b);
+            lemma_bv_unique(f, s + 1, g, s2 + 1, l - 1);
+            assert forall|i: int| 0 <= i < l implies #[trigger] f(s + i) == g(s2 + i) by {
+                if i == 0 { } else {
+                    assert(f(s + 1 + (i - 1)) == g(s2 + 1 + (i - 1)));
+                    assert(s + 1 + (i - 1) == s + i);
+                    assert(s2 + 1 + (i - 1) == s2 + i);
+                }
+            }
+        }
+    }
+    pub proof fn lemma_ibit_is_bits(x: int)
+        ensures is_bits(ibitf(x)),
+    {
+        let f = ibitf(x);
+        assert forall|i: int| 0 <= #[trigger] f(i) <= 1 by { }
+    }
+    // ---- byte strings
+    pub open spec fn bit(v: Seq<u8>, i: int) -> int { ibit(v[i / 8] as int, i % 8) }
+    pub open spec fn byte_bitf(v: Seq<u8>) -> spec_fn(int) -> int { |i: int| bit(v, i) }
+    pub open spec fn bits_val(v: Seq<u8>, s: int, l: int) -> int { bv(byte_bitf(v), s, l) }
+    pub open spec fn field(v: Seq<u8>, c: int, j: int) -> int { bits_val(v, c * j, c) }
+
+    pub proof fn lemma_bits_range(v: Seq<u8>, s: int, l: int)
+        requires l >= 0,
+        ensures 0 <= bits_val(v, s, l) < p2(l),
+    {
+        let f = byte_bitf(v);
+        assert forall|i: int| 0 <= #[trigger] f(i) <= 1 by { }
+        lemma_bv_range(f, s, l);
+    }
+    pub proof fn lemma_bits_split(v: Seq<u8>, s: int, l1: int, l2: int)
+        requires l1 >= 0, l2 >= 0,
+        ensures bits_val(v, s, l1 + l2) == bits_val(v, s, l1) + p2(l1) * bits_val(v, s + l1, l2),
+    {
+        lemma_bv_split(byte_bitf(v), s, l1, l2);
     }
     pub proof fn lemma_bits_byte(v: Seq<u8>, s: int)
-        requires s % 8 == 0, 0 <= s, s / 8 < v.len(),
+        requires s % 8 == 0, 0 <= s,
         ensures bits_val(v, s, 8) == v[s / 8],
     {
-        lemma2_to64();
         let x = v[s / 8] as int;
-        lemma_byte_bits(x);
-        reveal_with_fuel(bits_val, 9);
-        lemma_bit_at(v, s, 0, 1); lemma_bit_at(v, s, 1, 2); lemma_bit_at(v, s, 2, 4); lemma_bit_at(v, s, 3, 8);
-        lemma_bit_at(v, s, 4, 16); lemma_bit_at(v, s, 5, 32); lemma_bit_at(v, s, 6, 64); lemma_bit_at(v, s, 7, 128);
-        assert(bit(v, s) == x % 2);
-        assert(bit(v, s + 1) == (x / 2) % 2);
-        assert(bit(v, s + 2) == (x / 4) % 2);
-        assert(bit(v, s + 3) == (x / 8) % 2);
-        assert(bit(v, s + 4) == (x / 16) % 2);
-        assert(bit(v, s + 5) == (x / 32) % 2);
-        assert(bit(v, s + 6) == (x / 64) % 2);
-        assert(bit(v, s + 7) == (x / 128) % 2);
+        let g = ibitf(x);
+        let f = byte_bitf(v);
+        assert forall|i: int| 0 <= i < 8 implies #[trigger] f(s + i) == g(0 + i) by {
+            assert((s + i) / 8 == s / 8);
+            assert((s + i) % 8 == i);
+        }
+        lemma_bv_shift(f, s, g, 0, 8);
+        lemma2_to64();
+        assert(p2(8) == 256);
+        lemma_int_bits_small(x, 8);
     }
-    pub open spec fn p2(k: int) -> int { pow2(k as nat) as int }
+    // ---- the ideal bit stream of a sequence of c-bit values (FIPS 204 IntegerToBits, concatenated)
+    pub open spec fn sbitf(vals: Seq<int>, c: int) -> spec_fn(int) -> int { |p: int| ibit(vals[p / c], p % c) }
+    pub proof fn lemma_sbitf_is_bits(vals: Seq<int>, c: int)
+        ensures is_bits(sbitf(vals, c)),
+    {
+        let f = sbitf(vals, c);
+        assert forall|i: int| 0 <= #[trigger] f(i) <= 1 by { }
+    }
+    pub proof fn lemma_stream_field(vals: Seq<int>, c: int, j: int)
+        requires c >= 1, j >= 0, 0 <= vals[j] < p2(c),
+        ensures bv(sbitf(vals, c), c * j, c) == vals[j],
+    {
+        let x = vals[j];
+        let g = ibitf(x);
+        let f = sbitf(vals, c);
+        assert forall|i: int| 0 <= i < c implies #[trigger] f(c * j + i) == g(0 + i) by {
+            assert(c * j + i == j * c + i) by (nonlinear_arith);
+            lemma_fundamental_div_mod_converse(c * j + i, c, j, i);
+        }
+        lemma_bv_shift(f, c * j, g, 0, c);
+        lemma_int_bits_small(x, c);
+    }
+    // if every byte of `out` equals the corresponding 8 stream bits, then every field of `out` equals the stream's value
+    pub proof fn lemma_bytes_carry_stream(out: Seq<u8>, vals: Seq<int>, c: int, j: int)
+        requires c >= 1, j >= 0, 0 <= vals[j] < p2(c),
+            forall|m: int| 0 <= m && 8 * m < c * j + c ==> #[trigger] out[m] as int == bv(sbitf(vals, c), 8 * m, 8),
+        ensures field(out, c, j) == vals[j],
+    {
+        let sb = sbitf(vals, c);
+        let f = byte_bitf(out);
+        lemma_sbitf_is_bits(vals, c);
+        assert(c * j >= 0) by (nonlinear_arith) requires c >= 1, j >= 0;
+        assert forall|i: int| c * j <= i < c * j + c implies #[trigger] f(i) == sb(i) by {
+            let m = i / 8;
+            let t = i % 8;
+            let x = out[m] as int;
+            let g = ibitf(x);
+            lemma_ibit_is_bits(x);
+            lemma2_to64();
+            assert(p2(8) == 256);
+            lemma_int_bits_small(x, 8);
+            assert(bv(g, 0, 8) == x);
+            assert(out[m] as int == bv(sb, 8 * m, 8));
+            lemma_bv_unique(g, 0, sb, 8 * m, 8);
+            assert(g(0 + t) == sb(8 * m + t));
+            assert(8 * m + t == i);
+        }
+        lemma_bv_ext(f, sb, c * j, c);
+        lemma_stream_field(vals, c, j);
+    }
     pub proof fn lemma_shl_p2_i32(k: i32)
         requires 0 <= k <= 30,
         ensures (1i32 << k) == p2(k as int), p2(k as int) > 0,
@@ -179,4 +327,27 @@
             lemma_pow2_unfold((c + 1) as nat);
             lemma_pow2_strictly_increases(c as nat, 20);
         }
+    }
+    // ---- FIPS 204 Algorithm 21 (HintBitUnpack) as predicates over the byte string y = index bytes (omega) || counters (k)
+    pub open spec fn hint_prev(y: Seq<u8>, omega: int, i: int) -> int { if i <= 0 { 0 } else { y[omega + i - 1] as int } }
+    pub open spec fn hint_in_poly(y: Seq<u8>, omega: int, i: int, t: int) -> bool { hint_prev(y, omega, i) < t < y[omega + i] }
+    // accepted exactly when: counters non-decreasing and <= omega, indices strictly increasing inside a polynomial, unused bytes zero
+    pub open spec fn hint_canonical(y: Seq<u8>, omega: int, kk: int) -> bool {
+        &&& forall|i: int| 0 <= i < kk ==> hint_prev(y, omega, i) <= #[trigger] y[omega + i] <= omega
+        &&& forall|i: int, t: int| 0 <= i < kk && #[trigger] hint_in_poly(y, omega, i, t) ==> y[t - 1] < y[t]
+        &&& forall|t: int| hint_prev(y, omega, kk) <= t < omega ==> #[trigger] y[t] == 0
+    }
+    pub open spec fn hint_has(y: Seq<u8>, omega: int, i: int, j: int) -> bool {
+        exists|t: int| hint_prev(y, omega, i) <= t < y[omega + i] && #[trigger] y[t] == j
+    }
+    pub open spec fn hint_has_upto(y: Seq<u8>, lo: int, hi: int, j: int) -> bool {
+        exists|t: int| lo <= t < hi && #[trigger] y[t] == j
+    }
+    // FIPS 204 Algorithms 16/17: the value written for coefficient w by (Simple)BitPack(w, a, b)
+    pub open spec fn spec_pack_val(w: int, a: int, b: int) -> int { if a > 0 { b - w } else { w } }
+    // number of non-zero coefficients among the first n (row-major) coefficients of a hint vector
+    pub open spec fn hint_count(h: Seq<R>, n: int) -> int
+        decreases n
+    {
+        if n <= 0 { 0 } else { hint_count(h, n - 1) + (if h[(n - 1) / 256].0[(n - 1) % 256] != 0 { 1int } else { 0int }) }
     }
